@@ -227,7 +227,7 @@ func maxInput() int {
 
 func typeOpts() gen.TypeOpts {
 	return gen.TypeOpts{Depth: 3, Width: 3,
-		Leaves:  append(append([]ref.Kind{}, gen.AllScalars...), ref.KValue, ref.KValue, ref.KString, ref.KVoid),
+		Leaves:  append(append([]ref.Kind{}, gen.AllScalars...), ref.KValue, ref.KValue, ref.KString, ref.KVoid, ref.KObject),
 		MapKeys: gen.KeyScalars, Structs: true, Tuples: true, Maps: true, Lists: true, ZeroMem: true}
 }
 
@@ -621,6 +621,20 @@ func checkCase(c Case) error {
 	budget := uint64(allocConstant + perByte*len(data))
 	if res.alloc > budget && !polluted {
 		return vt.Violationf(classOf(c, "alloc"), "%s (sig %q action %d) allocated %d bytes for a %d byte input (budget %d): %s", c.Entry, c.Sig, c.Action, res.alloc, len(data), budget, short)
+	}
+	// Towers of nested lists: the first half of the input is a tower of half
+	// the depth, cut in mid-air like the whole one. Whatever a decoder does per
+	// level, twice the depth may cost about twice as much, not four times
+	// (copies or messages growing with the depth make it quadratic long before
+	// the absolute budget notices).
+	if c.Kind == "amplifier:list-tower" && len(data) >= 4096 && !polluted {
+		half := measure(c, data[:len(data)/2])
+		if !half.timedOut && half.panicked == nil && res.alloc > 8<<20 && res.alloc > 3*half.alloc+(4<<20) {
+			return vt.Violationf(classOf(c, "superlinear-alloc"), "%s (sig %q action %d) allocated %d bytes for a %d byte tower of nested lists but %d bytes for its first half: more than linear in the depth: %s", c.Entry, c.Sig, c.Action, res.alloc, len(data), half.alloc, short)
+		}
+		// (no such relation on wall-clock time: one garbage collection or a busy
+		// machine is enough to break it)
+		vt.Label("tower-scaling-checked")
 	}
 	nontrivial := res.out.consumed >= 8 || res.out.accepted || res.out.replies > 0
 	labels := []string{"entry=" + c.Entry, "kind=" + c.Kind}
